@@ -53,3 +53,21 @@ Proof.
   rewrite gen_mul_is_model. destruct d; reflexivity.
 Qed.
 End G.
+
+(* C16: the bare operators between two p-boxes, as translated (the ambient setting is the parameter `ambient`), are the explicit
+   methods called with that dependency *)
+Section Op.
+Variable N : Num.
+Variable steps : nat.
+Variable p_lo p_hi : N.
+Notation pb := (pbox N).
+Theorem operators_read_ambient (p q : pb) (d : dep) :
+  gen_operator_add N steps p_lo p_hi mul_fuel p q d = padd N steps p_lo p_hi d p q /\
+  gen_operator_sub N steps p_lo p_hi mul_fuel p q d = psub N steps p_lo p_hi d p q /\
+  gen_operator_mul N steps p_lo p_hi mul_fuel p q d = pmul N steps p_lo p_hi d p q /\
+  gen_operator_div N steps p_lo p_hi mul_fuel p q d = pdiv N steps p_lo p_hi d p q.
+Proof.
+  unfold gen_operator_add, gen_operator_sub, gen_operator_mul, gen_operator_div.
+  repeat split; [apply gen_add_is_model | apply gen_sub_is_model | apply gen_mul_is_model | apply gen_div_is_model].
+Qed.
+End Op.
